@@ -40,6 +40,7 @@ def _nontrivial(vals, alpha=None):
 def run_welford(case):
     from ixai.utils.tracker import WelfordTracker
     vals = _vals(case)
+    reads = case.get('reads') or [1]
     t = WelfordTracker()
     if not (t.N == 0 and t.mean == 0 and t.var == 0 and t.get() == 0 and t.std == 0):
         return Result(False, key='C10:welford:empty', detail='empty tracker does not report N=0, mean=0, var=0')
@@ -52,6 +53,13 @@ def run_welford(case):
         if t.N != len(seen):
             return Result(False, key='C10:welford:N', detail=f'N={t.N} after {len(seen)} updates')
         m, va = ref.mean(seen), ref.pvar(seen)
+        mode = reads[i % len(reads)]
+        if mode == 3 and i + 1 < len(vals):
+            continue
+        if mode == 0 and not (t() == m):
+            return Result(False, key='C10:welford:mean', detail=f'step {i}: tracker() = {t()!r} != {m!r}')
+        if mode == 2 and t.var != va:
+            return Result(False, key='C10:welford:var', detail=f'step {i}: var {t.var!r} != {va!r} (read before the mean)')
         if not (t.mean == m and t.get() == m and t() == m):
             return Result(False, key='C10:welford:mean', detail=f'step {i}: mean {t.mean!r} != {m!r}')
         if t.var != va:
@@ -72,6 +80,7 @@ def run_es(case):
     from ixai.utils.tracker import ExponentialSmoothingTracker
     vals = _vals(case)
     alpha = Q(case['alpha'])
+    reads = case.get('reads') or [1]
     t = ExponentialSmoothingTracker(alpha=alpha)
     if not (t.N == 0 and t.get() == 0):
         return Result(False, key='C10:es:empty', detail='fresh smoothing tracker is not 0')
@@ -82,8 +91,13 @@ def run_es(case):
         if t.N != len(seen):
             return Result(False, key='C10:es:N', detail=f'N={t.N} after {len(seen)} updates')
         want = ref.smooth(seen, alpha)
-        if not (t.get() == want and t() == want):
-            return Result(False, key='C10:es:value', detail=f'step {i}: {t.get()!r} != closed form {want!r} (alpha={alpha})')
+        # the read path and the read order are part of the history: __call__ first, get() first, or no read at all at this step
+        mode = reads[i % len(reads)]
+        if mode == 3 and i + 1 < len(vals):
+            continue
+        got = (t(), t.get()) if mode in (0, 3) else ((t.get(), t()) if mode == 1 else (t(), t()))
+        if not (got[0] == want and got[1] == want):
+            return Result(False, key='C10:es:value', detail=f'step {i}: read {got!r} != closed form {want!r} (alpha={alpha}, read mode {mode})')
         lo, hi = min(seen + [Q(0)]), max(seen + [Q(0)])
         if not (lo <= t.get() <= hi):
             return Result(False, key='C10:es:hull', detail=f'step {i}: smoothed value outside hull of 0 and inputs')
@@ -137,9 +151,11 @@ def run_numpy(case):
         m, va, sm = float(ref.mean(seen)), float(ref.pvar(seen)), float(ref.smooth(seen, Q(alpha)))
         if w.N != n or e.N != n:
             return Result(False, key='C10:numpy:N', detail='N does not count updates for NumPy inputs')
-        for nm, got, want, tol in (('mean', w.mean, m, 8 * n * eps * scale),
-                                   ('var', w.var, va, 16 * n * eps * scale * scale),
-                                   ('es', e.get(), sm, 8 * n * eps * scale)):
+        # absolute floor: results below the smallest normal number of the dtype may underflow (gradual underflow is legitimate)
+        tiny = 8 * n * float(np.finfo(np.float32 if case['dtype'] == 'f32' else np.float64).tiny)
+        for nm, got, want, tol in (('mean', w.mean, m, 8 * n * eps * scale + tiny),
+                                   ('var', w.var, va, 16 * n * eps * scale * scale + tiny),
+                                   ('es', e.get(), sm, 8 * n * eps * scale + tiny)):
             g = float(got)
             if not math.isfinite(g) or abs(g - want) > tol:
                 return Result(False, key=f'C10:numpy:{nm}', detail=f'{nm}={g!r} vs exact {want!r} tol {tol:g} ({case["dtype"]}, n={n})')
@@ -152,8 +168,9 @@ def _stream(maxlen):
 
 def strategies(ctx):
     L = 400 if ctx.thorough() else 60
-    s_w = st.fixed_dictionaries({'values': _stream(L)})
-    s_e = st.fixed_dictionaries({'values': _stream(L), 'alpha': gen.alpha01()})
+    reads = st.lists(st.integers(0, 3), min_size=1, max_size=6)
+    s_w = st.fixed_dictionaries({'values': _stream(L), 'reads': reads})
+    s_e = st.fixed_dictionaries({'values': _stream(L), 'alpha': gen.alpha01(), 'reads': reads})
     s_l = st.fixed_dictionaries({'u': st.lists(gen.rational(), min_size=1, max_size=20),
                                  'w': st.lists(gen.rational(), min_size=1, max_size=20),
                                  'a': gen.rational(), 'b': gen.rational(), 'alpha': gen.alpha01()})
